@@ -152,6 +152,10 @@ M = [
  ("TXT from text in chunks of 255", D + 'rdata/txt.rs', "chunks(MAX_CHARACTER_STRING_LENGTH - 1)", "chunks(MAX_CHARACTER_STRING_LENGTH)", 'fail:txt_api_source'),
  ("TXT from a map swallows an overlong entry", D + 'rdata/txt.rs', "                None => txt.add_char_string(key.try_into()?),", "                None => { if let Ok(k) = key.try_into() { txt.add_char_string(k) } }", 'untied:txt.api'),
  ("TXT long_attributes keeps parts with an empty key", D + 'rdata/txt.rs', "            if !key.is_empty() {\n                attributes.entry(key.to_owned()).or_insert(value);\n            }", "            attributes.entry(key.to_owned()).or_insert(value);", 'untied:txt.api'),
+ ("sync responder reads queries into 1472 bytes", 'simple-mdns/src/sync_discovery/simple_responder.rs', "        let mut recv_buffer = [0u8; 9000];", "        let mut recv_buffer = [0u8; 1472];", 'fail:service_shape_source'),
+ ("sync discovery reads into 4096 bytes", 'simple-mdns/src/sync_discovery/service_discovery.rs', "            let mut recv_buffer = [0u8; 9000];", "            let mut recv_buffer = [0u8; 4096];", 'fail:service_shape_source'),
+ ("tokio responder: an unserialisable reply ends the loop", 'simple-mdns/src/async_discovery/simple_responder.rs', "                            let reply = match reply_packet.build_bytes_vec_compressed() {\n                                Ok(reply) => reply,\n                                Err(err) => {\n                                    log::error!(\"Failed to build reply {err}\");\n                                    continue;\n                                }\n                            };", "                            let reply = reply_packet.build_bytes_vec_compressed()?;", 'fail:service_shape_source'),
+ ("sync responder buffer size from a constant", 'simple-mdns/src/sync_discovery/simple_responder.rs', "        let mut recv_buffer = [0u8; 9000];", "        const MAX: usize = 9000;\n        let mut recv_buffer = [0u8; MAX];", 'untied:mdns.service_shape'),
  ("mdns refresh in millis", 'simple-mdns/src/resource_record_manager.rs', 'added + Duration::from_secs(ttl / 2)', 'added + Duration::from_millis(ttl / 2)', 'untied:mdns.expiration'),
 ]
 
